@@ -11,4 +11,5 @@ Extraction "sampler_model.ml"
   count_symbols sampler_data_counts recompute_motif recompute_bg count_true
   active_sequences active_starts count_matrix
   check_motif check_range check_n check_iteration
-  freq_f32 background_bits_f32 expected_bg_bits_f32 check_bg_f32 check_state_f32 report_of_f32.
+  freq_f32 background_bits_f32 expected_bg_bits_f32 check_bg_f32 check_state_f32 report_of_f32
+  check_step_f32 check_C16_f32 obs_of_trace_f32.
